@@ -63,6 +63,51 @@ def facts_of(f):
                 # mentions a multi-definition local that is not one of the loop variables
                 pass
             out.append({'size': tmpl, 'n': n, 'ranges': ranges, 'loop': lfs[0]['for'], 'if': ifn['id'], 'strict': c['op'] != '!='})
+    # the same guard written with a std algorithm:
+    #   [for (v1 < R1)] if (std::any_of(X.begin(), X.end() | X.begin() + K, [..](const T& e) { return SIZE(e) < N; })) throw ...;
+    from paths import lambda_params
+    for did, lp in lambda_params(f).items():
+        call = f.nodes[lp[2]]
+        if call['callee'].get('qname') != 'std::any_of':
+            continue
+        ifn = None
+        for a in f.ancestors(call['id']):
+            an = f.nodes[a]
+            if an['k'] == 'IfStmt':
+                if f.strip(an['cond'], 'all') == call['id'] and _then_only_throws(f, an):
+                    ifn = an
+                break
+            if an['k'] not in ('ExprWithCleanups', 'ImplicitCastExpr', 'ParenExpr', 'MaterializeTemporaryExpr', 'CXXBindTemporaryExpr'):
+                break
+        if ifn is None:
+            continue
+        body = f.nodes[lp[4]]
+        st = [f.nodes[x] for x in body['ch']]
+        if len(st) != 1 or st[0]['k'] != 'ReturnStmt' or not st[0]['ch']:
+            continue
+        fors = enclosing_fors(f, ifn['id'])
+        lfs = [normal_for(f, x) for x in fors]
+        if any(l is None or l['start_cv'] != '0' or l['op'] != '<' for l in lfs):
+            continue
+        lfs = lfs[::-1]
+        for d in split_or(f, st[0]['ch'][0]):
+            c = f.nodes[d]
+            if c['k'] != 'BinaryOperator' or c['op'] not in ('<', '!=', '>'):
+                continue
+            l, r = R.render(c['ch'][0]), R.render(c['ch'][1])
+            if c['op'] == '>':
+                l, r = r, l
+            if not l.endswith('.size'):
+                continue
+            tmpl = l
+            ranges = []
+            for k, lf in enumerate(lfs):
+                tmpl = re.sub(r'\blocal:%s\b' % re.escape(lf['name']), '$%d' % k, tmpl)
+                ranges.append(R.render(lf['bound']))
+            tmpl = re.sub(r'\blocal:%s\b' % re.escape(lp[1]), '$%d' % len(lfs), tmpl)
+            ranges.append(R.render(lp[7]) if lp[7] is not None else R.render(lp[0]) + '.size')
+            anchor = lfs[0]['for'] if lfs else ifn['id']
+            out.append({'size': tmpl, 'n': r, 'ranges': ranges, 'loop': anchor, 'if': ifn['id'], 'strict': c['op'] != '!=', 'anchor': call['id'] if not lfs else None})
     return out
 
 
@@ -81,6 +126,16 @@ def equalities(f):
     return out
 
 
+ACCESSOR = {'subframe': '_subframe', 'point': '_points', 'channel': '_channels', 'frame': '_frames'}
+
+
+def norm_acc(r):
+    """positional accessor calls spelled as subscripts of their container: x.subframe(i) -> x._subframe[i]"""
+    for a, c in ACCESSOR.items():
+        r = re.sub(r'\.%s\(((?:local:\w+|\$\d+|\d+))\)' % a, lambda m: '.%s[%s]' % (c, m.group(1)), r)
+    return r
+
+
 def covered(f, call_node, obj_render, cont, idx_node):
     """the access obj.<cont>[idx] (through a bounds-checked accessor) at call_node is within
     bounds by a forall-guard of f that dominates it"""
@@ -89,7 +144,7 @@ def covered(f, call_node, obj_render, cont, idx_node):
     cv = g.vertex_of.get(call_node)
     if cv is None:
         return False
-    site_size = '%s.%s.size' % (obj_render, cont)
+    site_size = norm_acc('%s.%s.size' % (obj_render, cont))
     # loop variables in scope at the site
     scope = {}
     for fid in enclosing_fors(f, call_node):
@@ -100,6 +155,8 @@ def covered(f, call_node, obj_render, cont, idx_node):
     eqs = equalities(f)
 
     def same(a, b, at):
+        a = re.sub(r'^\((?:unsigned |signed )?\w[\w ]*\)(?=[\w(])', '', a)
+        b = re.sub(r'^\((?:unsigned |signed )?\w[\w ]*\)(?=[\w(])', '', b)
         if a == b:
             return True
         for x, y, cid in eqs:
@@ -110,11 +167,11 @@ def covered(f, call_node, obj_render, cont, idx_node):
     for fact in facts_of(f):
         # the validation nest must be complete before the access: its loop header dominates the
         # access and the access is not inside the nest
-        lv = g.vertex_of.get(f.nodes[fact['loop']].get('cond', -1))
+        lv = g.vertex_of.get(fact['anchor']) if fact.get('anchor') is not None else g.vertex_of.get(f.nodes[fact['loop']].get('cond', -1))
         if lv is None or not g.dominates(lv, cv) or call_node in f.descendants(fact['loop']):
             continue
         # match the template against the site's size expression
-        pat = re.escape(fact['size'])
+        pat = re.escape(norm_acc(fact['size']))
         for k in range(len(fact['ranges'])):
             pat = pat.replace(re.escape('$%d' % k), r'(?P<v%d>local:\w+|\d+)' % k)
         m = re.match('^' + pat + '$', site_size)
